@@ -805,7 +805,7 @@ def check_iet_get(ctx):
                               "`.items()` of it and raises, instead of selecting nothing there -- GroupBy/SelectContext keys taken from "
                               "such a context fail for one value of the flow only" % (A.src(c), p.describe(4)),
                               construct="get-recursion-unguarded", path=p)
-    ctx.instances_floor("C15-d/recursion", nrec, 2, "recursive get calls on enumerated paths")
+    ctx.instances_floor("C15-d/recursion", nrec, 1, "recursive get calls on enumerated paths")
     if not seen_bad:
         ctx.ok("C15-d", get, "every recursion into a subtree is made with a value tested isinstance(., dict)")
     if not ctx.require(len(ps) == 1 and loops and all(A.src(l.iter) == "%s.items()" % ps[0] and isinstance(l.target, ast.Tuple)
